@@ -13,6 +13,9 @@ Pre == act.pre
 Post == node[act.node]
 PostD == disk[act.node]
 PreD == act.preDisk
+SD(i) == app[i].sd          \* synced storage image of node i
+PostSD == app[act.node].sd
+PreSD == act.preSD
 ActUp == Acting /\ Post.up
 BothUp == ActUp /\ Pre.up /\ A.name \notin {"Restart", "Boot"}
 NewMsgs == IF ~BothUp \/ A.name = "Ready" THEN <<>> ELSE NewSeq(Pre.msgs, Post.msgs)
@@ -106,21 +109,22 @@ C04_NoOverwrite ==
 (* network in this step (act.sent), against the sender's disk at that instant *)
 DiskReaches(d, k) == StLast(d) >= k \/ d.snap.index >= k
 VoteDurable(m, d) == d.hs.term > m.term \/ (d.hs.term = m.term /\ d.hs.vote = m.to)
+\* d = synced image, live = the storage the node currently reads
 AckDurable(m, n, d) ==
   \/ d.hs.term > m.term
   \/ /\ DiskReaches(d, m.index)
      /\ (n.up /\ n.term = m.term) =>
-          \A k \in FirstIndex(n, d)..Min2(m.index, LastIndex(n, d)) : Covers(d, k, EntryAt(n, d, k))
+          \A k \in FirstIndex(n, PostD)..Min2(m.index, LastIndex(n, PostD)) : Covers(d, k, EntryAt(n, PostD, k))
 C05_VoteDurable ==
   Acting => \A k \in DOMAIN A.sent :
-    (A.sent[k].type = "VoteResp" /\ ~A.sent[k].reject /\ A.sent[k].from = I) => VoteDurable(A.sent[k], PostD)
+    (A.sent[k].type = "VoteResp" /\ ~A.sent[k].reject /\ A.sent[k].from = I) => VoteDurable(A.sent[k], PostSD)
 C05_AckDurable ==
   Acting => \A k \in DOMAIN A.sent :
     (A.sent[k].type = "AppResp" /\ ~A.sent[k].reject /\ A.sent[k].index > 0 /\ A.sent[k].from = I)
-      => AckDurable(A.sent[k], Post, PostD)
+      => AckDurable(A.sent[k], Post, PostSD)
 \* a leader counts its own entries towards commit only once they are durable
 C05_SelfAckDurable ==
-  (ActUp /\ Post.role = "L" /\ HasPr(Post, I)) => DiskReaches(PostD, GetPr(Post, I).match)
+  (ActUp /\ Post.role = "L" /\ HasPr(Post, I)) => DiskReaches(PostSD, GetPr(Post, I).match)
 \* after a restart everything comes from the disk
 C05_RestartFromDisk ==
   (ActUp /\ A.name \in {"Restart", "Boot"}) =>
@@ -136,7 +140,7 @@ C06_LeaderCommitBacked ==
     LET cidx == Post.commit IN
     /\ HasIndex(Post, PostD, cidx) /\ EntryAt(Post, PostD, cidx).term = Post.term
     /\ LET e == EntryAt(Post, PostD, cidx)
-           holders == {v \in Node : Exists(v) /\ Covers(disk[v], cidx, e)}
+           holders == {v \in Node : Exists(v) /\ Covers(SD(v), cidx, e)}
        IN  StrictMajorityOf(holders, VotersIn(Post.cfg)) /\ StrictMajorityOf(holders, VotersOut(Post.cfg))
 C06_FollowerCommit == ActUp => Post.commit <= Max2(hist.maxLeaderCommit, PostD.snap.index)
 
@@ -146,7 +150,7 @@ HSMono(old, new) ==
   /\ new.term >= old.term
   /\ new.commit >= old.commit
   /\ (new.term = old.term => (new.vote = old.vote \/ old.vote = 0))
-C07_DurableMono == Acting => (PostD.hs.has \/ ~PreD.hs.has) /\ (PostD.hs.has => HSMono(PreD.hs, PostD.hs))
+C07_DurableMono == Acting => (PostSD.hs.has \/ ~PreSD.hs.has) /\ (PostSD.hs.has => HSMono(PreSD.hs, PostSD.hs))
 C07_ExposedMono ==
   (Acting /\ A.name = "Ready" /\ A.rd.hs.has) => HSMono(hist.hsExpPrev[I], A.rd.hs)
 C07_VolatileMono ==
